@@ -20,6 +20,15 @@ def run(tier):
     for k, j in enumerate(jobs):
         if k % 7 == 3:
             j['ops'] = [dict(at=80, op='rerun', reset=bool(k % 2))]
+    # with-items over sub-workflows whose task fails for every item; the failed tasks inside ALL item sub-workflows are rerun
+    # back to back: the parent task has to wait for every re-running item
+    from harness import gen, engrun
+    for n_items in (2, 3):
+        for k, pol in enumerate(engrun.POLICIES[1:]):
+            P = gen.items_over_subworkflows(n_items, conc=(None if k % 2 else n_items))
+            ops = [dict(at=300, op='rerun', reset=True, target='r/t0#0@0.0/sub1x0#0')]
+            ops += [dict(rel=0, op='rerun', reset=True, target='r/t0#0@%d.0/sub1x0#0' % i) for i in range(1, n_items)]
+            jobs.append(dict(prog=P, scheduler=('default', 'legacy')[k % 2], policy=pol, seed=k + 1, label='itemsub%d' % n_items, ops=ops, max_steps=900))
     return ec.run_property(PID, tier, jobs,
                            'generated programs whose tasks iterate over 0..4 items (actions and sub-workflows, concurrency absent / 1..n+1, '
                            'per-item outcomes from the oracle) under 8 schedule policies that interleave item completions with the keyed '
